@@ -588,7 +588,9 @@ fn gen_string(t: &mut Tape, g: &Gates) -> Lit {
             continue;
         }
         let c = if t.ratio(1, 6) && g.want("STRING_NON_ASCII") {
-            *t.pick(&['é', 'ß', 'Ä', '€', '漢', 'ñ', '😀'])
+            // letters, symbols - and characters that text tools like to 'normalise': no-break space,
+            // soft hyphen, zero-width space, ideographic space, line separator, a BOM in the middle
+            *t.pick(&['é', 'ß', 'Ä', '€', '漢', 'ñ', '😀', '\u{a0}', '\u{ad}', '\u{200b}', '\u{3000}', '\u{2028}', '\u{feff}', '\u{85}', '\t'])
         } else {
             (32 + t.below(95) as u8) as char
         };
